@@ -193,13 +193,8 @@ def memcmp_volatile_size_inst(tier):
     TVSZ = cs('rlbox::tainted_volatile<unsigned long, rlbox::vsbx>')
     P = '((uintptr_t)((const struct %s *)$1)->data)' % TCHAR
     S = '((uintptr_t)*$2)'
-    ghost = ' unsigned g_chk; unsigned long g_c1_p, g_c1_n, g_c2_p, g_c2_n;\n'
-    chk = ('check_range(recording contract)', _is_check_range, CHECK_RANGE_CL[:-1] + [
-        ('records', '__CPROVER_ensures(g_chk == __CPROVER_old(g_chk) + 1 && (__CPROVER_old(g_chk) == 0 ==> (g_c1_p == (uintptr_t)$0 && g_c1_n == $1)) && (__CPROVER_old(g_chk) == 1 ==> (g_c2_p == (uintptr_t)$0 && g_c2_n == $1 && g_c1_p == __CPROVER_old(g_c1_p) && g_c1_n == __CPROVER_old(g_c1_n))))'),
-        ('frame', '__CPROVER_assigns(g_chk, g_c1_p, g_c1_n, g_c2_p, g_c2_n)')])
     stub = '''
 int vstd_memcmp(const void *d, const void *s, unsigned long n)
-__CPROVER_requires(g_chk == 2 && (uintptr_t)d == g_c1_p && n == g_c1_n && (uintptr_t)s == g_c2_p && n == g_c2_n) /*@compares_exactly_the_ranges_that_were_checked*/
 __CPROVER_requires(n == 0 || WHOLLY_IN_SOME((uintptr_t)d, n)) /*@memcmp_dest_wholly_inside*/
 __CPROVER_requires(n == 0 || WHOLLY_IN_SOME((uintptr_t)s, n) || WHOLLY_OUT(g_slot, (uintptr_t)s, n)) /*@memcmp_src_one_side*/
 __CPROVER_ensures(g_memcmp_calls == __CPROVER_old(g_memcmp_calls) + 1)
@@ -208,17 +203,17 @@ __CPROVER_assigns(g_memcmp_calls);
     cl = SB_REQ + [
         ('ptr_inv', '__CPROVER_requires(%s == 0 || V_WHICH(%s) != -1)' % (P, P)),
         ('src_inv', '__CPROVER_requires(%s < 0x8000000000000000UL)' % S),
-        ('size_cell', '__CPROVER_requires(__CPROVER_r_ok((const struct %s *)$3, sizeof(struct %s)) && g_memcmp_calls == 0 && g_chk == 0)' % (TVSZ, TVSZ)),
+        ('size_cell', '__CPROVER_requires(__CPROVER_r_ok((const struct %s *)$3, sizeof(struct %s)) && g_memcmp_calls == 0)' % (TVSZ, TVSZ)),
         ('performed_once', '__CPROVER_ensures(g_memcmp_calls == 1)'),
-        ('frame', '__CPROVER_assigns(g_memcmp_calls, g_chk, g_c1_p, g_c1_n, g_c2_p, g_c2_n)'),
+        ('frame', '__CPROVER_assigns(g_memcmp_calls)'),
     ]
     h = SB_HARNESS + ('  struct %s p; uintptr_t in_p; p.data = (char *)in_p; uintptr_t in_s; const char *src = (const char *)in_s;\n'
-                      '  struct %s cell; g_memcmp_calls = 0; g_chk = 0; g_noabort = 0;\n'
+                      '  struct %s cell; g_memcmp_calls = 0; g_noabort = 0;\n'
                       '  $ROOT(&sb, &p, &src, (void *)&cell);\n' % (TCHAR, TVSZ))
     return Inst('c10_memcmp_size_in_sandbox_memory', 'rlbox_sandbox<vsbx>& s, tainted<char*, vsbx>& p, const char*& src, tainted_volatile<size_t, vsbx>& num', 'memcmp(s, p, src, num);',
-                cl, h, leaves=['dynamic_check', 'vsbx.impl_get_total_memory', chk], prop=PROP, root_name='memcmp', tier=tier,
-                pre=SPEC + ghost + stub, extra_replace=['vstd_memcmp'], opts={'amp_star': True, 'volatile_read_check': True}, nondet_volatile=True,
-                note='adversarial-read model: the size cell may change between any two reads; the recording range-check contract pins what was checked')
+                cl, h, leaves=['dynamic_check', 'vsbx.impl_get_total_memory', CHECK_RANGE_LEAF], prop=PROP, root_name='memcmp', tier=tier,
+                pre=SPEC + stub, extra_replace=['vstd_memcmp'], opts={'amp_star': True, 'volatile_read_check': True}, nondet_volatile=True,
+                note='adversarial-read model: the size cell may change between any two reads; the count compared must itself satisfy the range clauses (stated on the arguments of the comparison, not on what a helper recorded)')
 
 
 def unverified_ptr_inst(pointee, tier):
